@@ -387,4 +387,18 @@ mutual
       · exact hr.2 hfs
 end
 
+/-- a document the reference evaluation lets through lies within every level of the plan (= `C11.plan_sound`) -/
+theorem plan_within (ks : List Val) (f : Val) (d : PList) (hks : ∀ k ∈ ks, FieldKey k)
+    (h : refMatch (some (.map d)) f = true) : within (plan ks f) d = true := by
+  induction ks with
+  | nil => simp [plan, within]
+  | cons k ks ih =>
+    obtain ⟨key, rfl, hk⟩ := hks k (by simp)
+    simp only [plan]
+    cases hp : planV (.str key) f with
+    | none => simp [within]
+    | some b =>
+      simp only [within, Bool.and_eq_true]
+      exact ⟨(inb_iff _ _).mpr (planV_sound hk f b h hp), ih fun k' hk' => hks k' (by simp [hk'])⟩
+
 end Uniflow.Plan
